@@ -127,6 +127,9 @@ class Ledger:
                         out.append((('pay', cbb), 0, 'debt returned: pointer no longer protected', 'paid_back'))
                     else:
                         out.append((('pay', cbb), +1, 'a writer paid our debt: we own a count', None))
+                elif nm == 'is_null' and 'ptr::' in t['callee'].get('path', '') and truth:
+                    # on this edge the tested pointer is NULL: conversions of it move no count (the empty value has none)
+                    out.append((('null', cbb, frozenset(b.origins(t['args'][0]))), 0, 'pointer known to be NULL', None))
                 elif nm in ('is_ok', 'is_err'):
                     for o in b.origins(t['args'][0]):
                         if o[0] == 'call' and U.is_atomic_callee(b.term(o[1])['callee']):
@@ -315,6 +318,10 @@ def analyse(fx, b, col, rule='LEDGER', unwind_rule='LEDGER-UNWIND', declared_exi
         cw = None
         if k == 'call':
             cw = lg._callw.get(bb)
+            if cw is not None and cw[0] is not None and _refcnt(t, 'from_ptr', 'dec', 'inc') and t['args']:
+                src = frozenset(b.origins(t['args'][0], through_calls=lambda tt: [0] if U.callee_name(tt) in ('cast', 'cast_const', 'cast_mut') else None))
+                if src and any(key[0] == 'null' and key[2] == src for key in applied):
+                    cw = (0, cw[1] + ' of a pointer known to be NULL on this path: no count')
             if cw is not None:
                 if cw[0] is None:
                     viol.append((b.loc(bb), cw[1], path))
